@@ -180,7 +180,9 @@ static void load_stream(struct stream *s, char *txt)
     for (p = strtok_r(txt, "/", &save); p && s->n < 64; p = strtok_r(NULL, "/", &save)) {
         struct chunk *c = &s->c[s->n++];
         c->kind = p[0]; c->off = 0; c->n = 0; c->b = NULL;
-        if (p[0] == 'A') {
+        if (p[0] == 'M') {           /* in-band status: resolved at connect time, see sim_resolve_markers */
+            c->n = (size_t)atoi(p + 1);
+        } else if (p[0] == 'A') {
             c->n = strlen(p + 1) / 2;
             c->b = malloc(c->n + 1);
             for (size_t i = 0; i < c->n; i++) c->b[i] = (unsigned char)(hexv(p[1 + 2 * i]) * 16 + hexv(p[2 + 2 * i]));
@@ -658,11 +660,31 @@ void __wrap_exit(int code)
 }
 
 /* ---------- entry points used by the simrcmd module ---------- */
+/* an 'M<code>' item stands for what a remote shell does with the status suffix pdsh appends to the command
+ * (";echo XXRETCODE:$?"): the marker line with that code if the command carries the suffix, nothing otherwise */
+static void sim_resolve_markers(struct stream *s, const char *cmd)
+{
+    int want = cmd && strstr(cmd, "XXRETCODE:") != NULL, k = 0;
+    for (int i = 0; i < s->n; i++) {
+        struct chunk c = s->c[i];
+        if (c.kind == 'M') {
+            if (!want) continue;
+            char line[64];
+            int len = snprintf(line, sizeof line, "XXRETCODE:%d\n", (int)c.n);
+            c.kind = 'A'; c.n = (size_t)len; c.off = 0;
+            c.b = malloc((size_t)len + 1);
+            memcpy(c.b, line, (size_t)len);
+        }
+        s->c[k++] = c;
+    }
+    s->n = k;
+}
 int sim_connect(const char *host, const char *user, const char *cmd, int rank, int *efd, const char *modname)
 {
     int hi, fd = -1;
     __real_pthread_mutex_lock(&G);
     hi = host_index(host);
+    sim_resolve_markers(&H[hi].out, cmd);
     T[self].host = hi;
     T[self].eintr = 0;
     H[hi].connects++;
